@@ -13,6 +13,7 @@ C07 — resolvers only receive arguments that conform to the declared input type
 """
 import ast
 import json
+import sys
 
 from common import REPO
 from corr import C07_universe as U
@@ -23,9 +24,15 @@ RULE = ("cases: every type expression with <=3 wrappers over the 5 specified sca
         "values != names and (mutually) recursive input objects with defaults and python names, in a hand-written and in seeded "
         "random registries, x JSON values of the natural kind and structurally wrong ones x {provided, omitted, explicit null} x "
         "{inline literal, variable, variable with default, nullable variable with default at a non-null position, variable nested "
-        "in a list/object literal}; non-trivial = distinct (registry, argument type, default, route, value) whose value is not a "
+        "in a list/object literal}; plus HISTORIES: a schema that has been used, then derived (visibility transform hiding input fields / types, "
+        "camel-case transform, `fields` setter, clone; one or two steps), checked against the derived schema's own declaration with the source's values "
+        "in the stream, then the source again; non-trivial = distinct (registry, argument type, default, route, value) whose value is not a "
         "bare scalar-at-scalar success (i.e. involves null, a wrapper, an enum, an input object, a boundary or a rejection)")
 ASSUMPTIONS = [
+    "histories: the Lean model is stateless (a registry = what a schema DECLARES, by name); that a derived schema's coercion uses exactly what the "
+    "derived schema declares is tied by the history stream only (object identity / memoisation belongs to C14's heap model). A derivation that leaves "
+    "a declared default stale (a default dict naming a field the derived schema hides) violates the premise RegOK and is skipped, counted under "
+    "input_distribution 'history:premise-fails'",
     "the statement presupposes what the theorems take as CHECKED hypotheses (RegOK / ArgsOK): enum internal values are not None and python names "
     "are distinct within one input object / argument list; the model follows the code's behaviour on colliding python names (stream "
     "`collision`, correspondence only) and Props/C07_examples.lean has the witnesses that neither hypothesis can be dropped",
@@ -461,7 +468,7 @@ def ask_model(ctx, reg, items):
 
 # =========================================================================== cases
 
-def build_cases(reg, types, rng, per_type, depth):
+def build_cases(reg, types, rng, per_type, depth, leaf_defaults_only=False):
     """-> (specs, groups). A group = one (spec, JSON value | OMIT) with its routes:
        {"spec": i, "ty", "j", "presence", "cases": {route: case}}"""
     specs = []
@@ -469,23 +476,40 @@ def build_cases(reg, types, rng, per_type, depth):
     for t in types:
         variants = [arg("x", t)]
         dv = U.default_for(reg, t, rng, 2)
-        if dv is not U._NO and U.conforms(reg, t, dv) is None:
+        if dv is not U._NO and U.conforms(reg, t, dv) is None and not (leaf_defaults_only and U.reg_get(reg, U.ty_base(t))["kind"] == "input"):
             variants.append(arg("x", t, [dv], "x_py"))
         for a in variants:
             spec = [a]
             if rng.random() < 0.3:
                 spec = [a, arg("y", N("Int"), [9], "y_py")] if rng.random() < 0.5 else [arg("y", L(N("E" if U.reg_get(reg, "E") else "Int")), None, "y_py"), a]
             specs.append(spec)
-            si = len(specs) - 1
-            nat = U.values_for(reg, t, rng, depth, wrong=False, cap=per_type)
-            bad = U.values_for(reg, t, rng, depth, wrong=True, cap=per_type)
-            good = [j for j in nat if j is not None and U.must_accept(reg, t, j) and not U.has_boundary(j)]
-            j0 = rng.choice(good) if good else None
-            lit0 = U.ast_of_json(reg, t, j0) if j0 is not None else None
-            for j in nat + bad:
-                groups.append(make_group(reg, si, a, t, j, lit0, j0))
-            groups.append(make_group(reg, si, a, t, OMIT, lit0, j0))
+            groups += groups_for_arg(reg, len(specs) - 1, a, rng, per_type, depth)
     return specs, groups
+
+
+def groups_for_arg(reg, si, a, rng, per_type, depth, value_regs=()):
+    """the groups of one argument `a` of field `si`; `value_regs`: OTHER registries whose values are sent too
+    (a schema's history: values that were fine for the schema this one was derived from)"""
+    t = a["type"]
+    nat = U.values_for(reg, t, rng, depth, wrong=False, cap=per_type)
+    bad = U.values_for(reg, t, rng, depth, wrong=True, cap=per_type)
+    for other in value_regs:
+        if all(U.reg_get(other, n) is not None for n in [U.ty_base(t)]):
+            try:
+                extra = U.values_for(other, t, rng, depth, wrong=False, cap=per_type)
+            except Exception:  # noqa
+                extra = []
+            bad = bad + [j for j in extra if well_typed_for(reg, j)]
+    good = [j for j in nat if j is not None and U.must_accept(reg, t, j) and not U.has_boundary(j)]
+    j0 = rng.choice(good) if good else None
+    lit0 = U.ast_of_json(reg, t, j0) if j0 is not None else None
+    out = [make_group(reg, si, a, t, j, lit0, j0) for j in nat + bad]
+    out.append(make_group(reg, si, a, t, OMIT, lit0, j0))
+    return out
+
+
+def well_typed_for(reg, j):
+    return True
 
 
 OMIT = ("<omitted>",)
@@ -669,7 +693,7 @@ class Checker:
         self.reg_id = reg_id
 
     def detail(self, world, spec, g, route, extra=None):
-        d = {"reg": U.reg_to_jsonable(self.reg), "spec": spec_wire(spec), "route": route,
+        d = {"reg": U.reg_to_jsonable(self.reg), "spec": spec_wire(spec), "route": route, "field_index": g["spec"],
              "type": ty_str(g["ty"]), "value": "<omitted>" if g["j"] is OMIT else json.dumps(g["j"]),
              "document": world.doc_text(g["cases"][route]), "variables": json.dumps(dict(g["cases"][route]["variables"])),
              "group": group_jsonable(g)}
@@ -809,9 +833,9 @@ RAW_LITS = [("null",), ("int", 1), ("int", 0), ("int", U.MAX32), ("int", U.MIN32
 VAR_ENVS = [None, {}, {"v": None}, {"v": 3}, {"v": "A"}, {"v": [1, 2]}, {"v": {"a_py": 1}}, {"v": 3, "w": None}]
 
 
-def run_registry(ctx, reg, reg_id, types, per_type, depth, max_cases=2000, n_abstract=6, n_trace=60):
+def run_registry(ctx, reg, reg_id, types, per_type, depth, max_cases=2000, n_abstract=6, n_trace=60, leaf_defaults_only=False):
     rng = ctx.rng
-    specs, groups = build_cases(reg, types, rng, per_type, depth)
+    specs, groups = build_cases(reg, types, rng, per_type, depth, leaf_defaults_only)
     # pipeline runs cost ~6 ms each (26 validation rules): keep every group of the small types, sample the rest
     groups = select_groups(groups, rng, max_cases)
     abstract = build_abstract(reg, types, rng, n_abstract)
@@ -821,12 +845,25 @@ def run_registry(ctx, reg, reg_id, types, per_type, depth, max_cases=2000, n_abs
         ctx.fail("schema-build:%s" % type(e).__name__, "registry could not be built as a py_gql schema", {"reg": U.reg_to_jsonable(reg), "error": str(e)[:300]},
                  kind="correspondence")
         return
+    run_world(ctx, world, reg, reg_id, types, specs, groups, per_type, depth, n_trace)
+    return world, specs
+
+
+def run_world(ctx, world, reg, reg_id, types, specs, groups, per_type, depth, n_trace, value_regs=(), extras=True):
+    """correspondence + direct oracle for an EXISTING schema (`world`) described by `reg` / `specs`"""
+    rng = ctx.rng
     chk = Checker(ctx, reg, reg_id)
 
     # ---------- (K1) coerce_value and (K2) value_from_ast, directly, against the model ----------
     items, impl, meta = [], [], []
     for t in types:
         vals = U.values_for(reg, t, rng, depth, False, per_type) + U.values_for(reg, t, rng, depth, True, per_type)
+        for other in value_regs:
+            if U.reg_get(other, U.ty_base(t)) is not None:
+                try:
+                    vals = vals + U.values_for(other, t, rng, depth, False, per_type)
+                except Exception:  # noqa
+                    pass
         for j in vals:
             items.append({"op": "coerce_value", "ty": ty_json(t), "v": U.jv_wire(j)})
             impl.append(world.coerce_value(t, j))
@@ -889,9 +926,10 @@ def run_registry(ctx, reg, reg_id, types, per_type, depth, max_cases=2000, n_abs
         if len(ctx.samples) < 6 and g["j"] is not OMIT and isinstance(g["j"], (dict, list)) and outcomes.get("var", ("",))[0] == "called":
             ctx.sample({"type": ty_str(g["ty"]), "document": world.doc_text(g["cases"]["var"]), "variables": dict(g["cases"]["var"]["variables"]),
                         "resolver_kwargs": outcomes["var"][1], "literal_route_same": outcomes.get("lit") == outcomes["var"]})
-    run_abstract(ctx, chk, world, reg, reg_id)
-    run_trace(ctx, chk, world, reg, reg_id, specs, n_trace)
-    run_allowed(ctx, world, reg, reg_id, specs, n_trace)
+    if extras:
+        run_abstract(ctx, chk, world, reg, reg_id)
+        run_trace(ctx, chk, world, reg, reg_id, specs, n_trace)
+        run_allowed(ctx, world, reg, reg_id, specs, n_trace)
     if ctx.model_ok and items:
         answers = ask_model(ctx, reg, items)
         for it, ans, (g, route, d, spec) in zip(items, answers, metas):
@@ -1327,6 +1365,9 @@ def run(ctx):
         types = rng.sample(at, min(len(at), 30 if quick else 80))
         run_registry(ctx, r, "rnd%d" % i, types, per_type=6 if quick else 10, depth=2,
                      max_cases=250 if quick else 1500, n_abstract=2 if quick else 6, n_trace=30 if quick else 200)
+    # schemas with a past: used, then derived (visibility / camel-case transforms, `fields` setter, clone), then checked
+    from corr import C07_history
+    C07_history.run(ctx, sys.modules[__name__])
     ctx.extra["int_range_test_source"] = int_range_test()[2]
     ctx.extra["float_finiteness_guard_source"] = float_guard()[1] or ["<none>"]
 
@@ -1391,13 +1432,28 @@ def replay(ctx, data, record=False):
     elif inp.get("check") == "direct":
         t = parse_ty(inp["type"])
         j = json.loads(inp["value"])
-        world = World(reg, [[arg("x", N("Int"))]])
+        if "history" in inp:
+            from corr import C07_history
+            world, reg, _ = C07_history.replay_world(sys.modules[__name__], inp["history"])
+            chk = Checker(ctx, reg, "replay")
+        else:
+            world = World(reg, [[arg("x", N("Int"))]])
         lit = U.ast_of_json(reg, t, j)
         direct_function_oracle(ctx, chk, world, t, j, lit, world.coerce_value(t, j), world.value_from_ast(t, lit, None))
     else:
         g = group_from_jsonable(inp["group"])
         spec = [dict(a, type=U.ty_from_json(a["type"]), default=None if a["default"] is None else [dict_from_wire(a["default"]["v"])]) for a in inp["spec"]]
-        world = World(reg, [spec])
+        if "history" in inp:
+            from corr import C07_history
+            world, reg, dspecs = C07_history.replay_world(sys.modules[__name__], inp["history"])
+            chk = Checker(ctx, reg, "replay")
+            fi = inp.get("field_index", 0)
+            spec = dspecs[fi]
+            g["spec"] = fi
+            for c in g["cases"].values():
+                c["field"] = fi
+        else:
+            world = World(reg, [spec])
         outcomes = {route: world.pipeline(case) for route, case in g["cases"].items()}
         chk.check_group(world, spec, g, outcomes)
     after = sum(f["count"] for f in ctx.found if f["kind"] == "property")
